@@ -24,6 +24,10 @@ PROGRAMS = [
     "1 2 3 4 `[9]", "1 2 3 4 ``[9]", "1 2 3 4 5 ```[]", "1 2 `[8] drop 5 6 ``[9]",
     "(\"abc\" elem, \"xyz\" relem) pos", "[1, 2, 3] (elem (== 2) || 7)", "(1, 2) (|A| [A, A (1 add ?(4 ?lt))*])",
     "(1, 0, 2) 10 swap div", "dup dup add mul",
+    # sequence literals of the query extended by add (what one execution appends must not be there in the next), copies of
+    # empty and non-empty sequences extended on one side
+    "[] [7] add", "[1] [2] add length", "(1, 2) (|X| [] [X] add)", "[] dup [3] add swap length", "[] (|L| L [1] add L length)", "[[]] elem [5] add",
+    "[1, 2] (|L| L [3] add length L length)", "let E := []; E [1] add E [2] add add", "[] [] add [3] add dup [4] add",
     # binders that take more values than a shallow stack has
     "let A B := 2; [A, B]", "let A B C := (1, 2) 3; [A, B, C]", "(|A B| [A, B])", "2 (|A B| A B add)", "let A B := dup; A B add", "[|A B| A, B]", "?(|A B| A B ?lt) 5",
 ]
